@@ -430,6 +430,7 @@ fn make_ctx(fen: &str) -> Ctx {
 }
 
 fn run_script_ctx(ctx: &Ctx, script: &Script) -> (u64, Vec<Divergence>) {
+    set_case(|| json!({"property": "C10", "case": script_json(script)}).to_string());
     let r = std::panic::catch_unwind(std::panic::AssertUnwindSafe(|| execute(ctx, script, RemoveMoveSemantics::Exact)));
     let info = match r {
         Ok(i) => i,
@@ -555,7 +556,7 @@ fn parse_mutator(s: &str) -> Mutator {
 }
 
 pub fn replay_c10(case: &Value) -> Vec<Divergence> {
-    std::panic::set_hook(Box::new(|_| {}));
+    silence_panics();
     let script = Script {
         fen: case["fen"].as_str().unwrap().to_string(),
         entry: parse_mask(case["entry"].as_str().unwrap()),
@@ -566,8 +567,11 @@ pub fn replay_c10(case: &Value) -> Vec<Divergence> {
 
 pub fn run_c10(args: &Args) -> i32 {
     let report = Report::new("C10", args.tier, args.seed, "model_checking");
-    std::panic::set_hook(Box::new(|_| {}));
-    let positions = c10_positions(args.tier);
+    silence_panics();
+    let mut positions = c10_positions(args.tier);
+    if reduced() {
+        positions = positions.into_iter().step_by(3).collect();
+    }
     let mut total_runs = 0u64;
     let mut total_steps = 0u64;
     let mut nontrivial_runs = 0u64;
@@ -591,7 +595,7 @@ pub fn run_c10(args: &Args) -> i32 {
             sample = Some(script_json(&scripts[i]));
         }
     }
-    let _ = std::panic::take_hook();
+    restore_panics();
     report.finish(
         json!({
             "states": total_steps,
